@@ -89,4 +89,6 @@ def run(ck, ctx):
     ck.ob("C30.3", "device-calls", dev == ["io_reset"], "device calls made by reset: %s" % dev, where)
     vis = {f["name"]: f["vis"] for v in adt["variants"] for f in v["fields"]}
     ck.ob("C30.3", "mcr-private", "Restricted" in vis.get("mcr", ""), "the mcr field is private (the handle cannot be swapped from outside): %s" % vis.get("mcr"), "src/sim.rs")
+    ck.include("C29", ctx, "C30.2", {"C29.1"}, "reset rebuilds the machine with the constructor")
+    ck.include("C31", ctx, "C30.3", None, "the fresh machine of a seeded configuration is reproducible")
     ck.assume("new_with_mcr builds the fresh machine (C29.1); 'same as a new simulator' for random fillers is up to the deterministic strategy (C31)")
